@@ -11,6 +11,7 @@
 #include "QXmppTask.h"
 
 #include <QDomDocument>
+#include <QVector>
 #include <QXmlStreamWriter>
 
 class QXmppPacket;
@@ -106,6 +107,7 @@ public:
     void resetCache();
     void enableStreamManagement(bool resetSequenceNumber);
     void setAcknowledgedSequenceNumber(unsigned int sequenceNumber);
+    void resumeStreamManagement(unsigned int acknowledgedSequenceNumber);
 
     QXmppTask<QXmpp::SendResult> send(QXmppPacket &&);
     bool sendPacketCompat(QXmppPacket &&);
@@ -115,6 +117,7 @@ public:
 
 private:
     void handleAcknowledgement(SmAck ack);
+    QVector<QXmppPacket> takeAcknowledged(unsigned int sequenceNumber);
 
     void sendAcknowledgement();
 
